@@ -36,6 +36,7 @@ func init() {
 		"(*bytes.Buffer).Bytes":         extBufBytes,
 		"fmt.Fprintf":                   extFprintf,
 		"io.WriteString":                extIOWriteString,
+		"io.Copy":                       extIOCopy,
 		"errors.New":                    extNewError,
 		"fmt.Errorf":                    extNewError,
 		"math.Floor":                    extFloorCeil(true),
@@ -71,14 +72,14 @@ func (fr *frame) external(st *state, f *ssa.Function, c *ssa.CallCommon, pos tok
 			}
 			vars[fmt.Sprintf("a%d", i)] = tv
 		}
-		eff := fc.e.externalEffects(f, c)
+		eff := fc.e.externalEffects(nil, f, c)
 		if ct.HasMod {
 			eff = ct.Modifies
 		}
 		return fr.specCall(st, ct, "ext:"+name, fr.anchorText(pos, "call"), pos, vars, eff, sig)
 	}
 	fc.unmodelled[name] = true
-	fc.havocFramed(st, st.clone(), fc.e.externalEffects(f, c))
+	fc.havocFramed(st, st.clone(), fc.e.externalEffects(nil, f, c))
 	fr.bumpAlloc(st)
 	return fr.freshResults(st, c.Signature(), f.Name())
 }
@@ -540,4 +541,32 @@ func extFloorCeil(floor bool) extHandler {
 		}
 		return []string{r}
 	}
+}
+
+// io.Copy(dst, src) with src a *bytes.Buffer: appends a prefix of src's content to dst's ghost content; all of
+// it iff err == nil. Sets the wfail ghost like io.WriteString.
+func extIOCopy(fr *frame, st *state, c *ssa.CallCommon, args []string, pos token.Pos) []string {
+	fc := fr.fc
+	sc := fc.sc
+	dst, src := app("vpay", args[0]), app("vpay", args[1])
+	if fr.sweepOn() {
+		fr.oblige(st, "nil", fr.anchorText(pos, "callfull"), pos, fmt.Sprintf("(not (= (vtag %s) 0))", args[0]), "copy to nil io.Writer")
+	}
+	n := sc.declare("copied", "Int")
+	errv := sc.declare("cerr", "Val")
+	slen := sc.define("srclen", "Int", app("select", fc.hget(st, "BL"), src))
+	sdata := app("select", fc.hget(st, "BD"), src)
+	sc.assume(fmt.Sprintf("(and (>= (vtag %s) 0) (<= 0 %s) (<= %s %s) (=> (= (vtag %s) 0) (= %s %s)) (=> (= (vtag %s) 0) (= (vpay %s) 0)))", errv, n, n, slen, errv, n, slen, errv, errv))
+	data := app("select", fc.hget(st, "BD"), dst)
+	ln := sc.define("dlen", "Int", app("select", fc.hget(st, "BL"), dst))
+	nd := sc.declare("cdata", "(Array Int Int)")
+	i := sc.fresh("i")
+	sc.assume(fmt.Sprintf("(forall ((%s Int)) (! (= (select %s %s) (ite (and (>= %s %s) (< %s (+ %s %s))) (select %s (- %s %s)) (select %s %s))) :pattern ((select %s %s))))", i, nd, i, i, ln, i, ln, n, sdata, i, ln, data, i, nd, i))
+	fc.hset(st, "BD", app("store", fc.hget(st, "BD"), dst, nd))
+	fc.hset(st, "BL", app("store", fc.hget(st, "BL"), dst, fmt.Sprintf("(+ %s %s)", ln, n)))
+	wf := "X|wfail|Bool"
+	oldFail := fc.hget(st, wf)
+	fc.hset(st, "X|wafterfail|Bool", or(fc.hget(st, "X|wafterfail|Bool"), oldFail))
+	fc.hset(st, wf, or(oldFail, fmt.Sprintf("(not (= (vtag %s) 0))", errv)))
+	return []string{n, errv}
 }
